@@ -140,6 +140,7 @@ func LoadDir(dir string) (*Prog, error) {
 			}
 		}
 	}
+	p.adoptRenames()
 	sort.Slice(p.FuncList, func(i, j int) bool { return p.FuncList[i].Name < p.FuncList[j].Name })
 	return p, nil
 }
@@ -154,7 +155,19 @@ func RelPkg(path string) string {
 }
 
 // QualName renders a function object as "internal/dmap.(*DMap).put" / "internal/dmap.prepareTTL".
+// A function that was recognised as a renamed anchor (see fingerprint.go) is reported
+// under its recorded name.
 func QualName(f *types.Func) string {
+	if f == nil {
+		return "<nil>"
+	}
+	if a, ok := aliases[f]; ok {
+		return a
+	}
+	return rawQualName(f)
+}
+
+func rawQualName(f *types.Func) string {
 	if f == nil {
 		return "<nil>"
 	}
